@@ -48,7 +48,9 @@ fn hist(args: &[String]) {
     let shards: usize = args[3].parse().unwrap();
     let cfg = args[4].clone();
     let basic = args.get(5).map(|s| s == "basic").unwrap_or(false);
-    let cyclic = args.get(5).map(|s| s == "cyclic").unwrap_or(false);
+    let cyclic_all = args.get(5).map(|s| s == "cyclic-all").unwrap_or(false);
+    let cyclic_ng = args.get(5).map(|s| s == "cyclic-nogroup").unwrap_or(false);
+    let cyclic = cyclic_all || cyclic_ng || args.get(5).map(|s| s == "cyclic").unwrap_or(false);
     std::fs::create_dir_all(dir).unwrap();
     let mut r = Rng::new(seed);
     let mut out: Vec<Vec<String>> = vec![Vec::new(); shards];
@@ -63,7 +65,7 @@ fn hist(args: &[String]) {
     let hang_secs: u64 = std::env::var("QV_HANG_SECS").ok().and_then(|s| s.parse().ok()).unwrap_or(20);
     let only: Option<u64> = std::env::var("QV_ONLY").ok().and_then(|s| s.parse().ok());
     for k in 0..n {
-        let g = GenCfg { max_nodes: 10, max_ops: 14, allow_fw: !basic, allow_proj: !basic, allow_ext: !basic, allow_group: !basic, restarts: cfg != "mem", cyclic };
+        let g = GenCfg { max_nodes: 10, max_ops: 14, allow_fw: !basic && (!cyclic || cyclic_all), allow_proj: !basic && (!cyclic || cyclic_all), allow_ext: !basic, allow_group: !basic && !cyclic_ng, restarts: cfg != "mem", cyclic };
         let s = gen_scenario(&mut r, &g);
         if let Some(only) = only { if only != k { continue; } }
         if std::env::var("QV_TRACE_SCN").is_ok() { std::fs::write(format!("{dir}/current.txt"), scenario_coq(&s)).unwrap(); }
@@ -165,6 +167,39 @@ fn replay(args: &[String]) {
     }
 }
 
+/// F5 / C06 witness: N1 -> N2 -> N1 where N2 keeps a helper task alive after it was unwound by
+/// the cycle, so N1 and N2 are both still in computing state with the cyclic edge recorded;
+/// a second root N4 -> N2 then runs the cycle search over that computing graph.
+fn f5() {
+    let mut prog = Program::default();
+    let n = |i| Node { kind: Kind::Normal, idx: i };
+    prog.exprs.insert(n(1), Expr::Read(n(2)));
+    prog.exprs.insert(n(2), Expr::Read(n(1)));
+    prog.exprs.insert(n(4), Expr::Read(n(2)));
+    let w = World::new(prog, 0);
+    w.helper_node.store(node_code(n(2)), Ordering::SeqCst);
+    w.helper_hold.store(true, Ordering::SeqCst);
+    let runtime = rt(4);
+    let out = runtime.block_on(async {
+        let engine = open_mem(&w).await;
+        { let mut s = engine.input_session().await; s.set_input(Var(0), 0).await; s.commit().await; }
+        let e1 = engine.clone();
+        let a = tokio::spawn(async move { let t = e1.tracked().await; query_node(&t, Node { kind: Kind::Normal, idx: 1 }).await });
+        // wait until N2's executor has run (and was unwound)
+        while w.exec_count.load(Ordering::SeqCst) < 2 { tokio::task::yield_now().await; }
+        tokio::time::sleep(Duration::from_millis(50)).await;
+        let e2 = engine.clone();
+        let b = tokio::spawn(async move { let t = e2.tracked().await; query_node(&t, Node { kind: Kind::Normal, idx: 4 }).await });
+        tokio::time::sleep(Duration::from_millis(200)).await;
+        w.helper_hold.store(false, Ordering::SeqCst);
+        let ra = tokio::time::timeout(Duration::from_secs(5), a).await;
+        let rb = tokio::time::timeout(Duration::from_secs(5), b).await;
+        (format!("{:?}", ra.map(|x| x.map_err(|e| e.to_string()))), format!("{:?}", rb.map(|x| x.map_err(|e| e.to_string()))))
+    });
+    println!("{{\"root1\":{:?},\"root2\":{:?}}}", out.0, out.1);
+    std::process::exit(0);
+}
+
 fn main() {
     let args: Vec<String> = std::env::args().collect();
     if std::env::var("QV_PANIC_TRACE").is_err() { std::panic::set_hook(Box::new(|_| {})); }
@@ -176,6 +211,7 @@ fn main() {
         "hist" => hist(&args[2..]),
         "f6" => f6(&args[2..]),
         "replay" => replay(&args[2..]),
+        "f5" => f5(),
         m => panic!("unknown mode {m}"),
     }
 }
